@@ -359,7 +359,23 @@ def main(argv):
     except HarnessError as e:
         print("HARNESS-NONDETERMINISM/ERROR: %s" % e)
         return 2
-    except Exception:
+    except Exception as e:
+        tb = traceback.format_exc()
+        cause = getattr(e, "__cause__", None)
+        text = tb + (str(cause) if cause is not None else "")
+        # Where did it come from?  An exception raised INSIDE the library while the harness performed an
+        # operation that is valid by construction (building its own operands, a reference conversion) is a
+        # verdict about the library, not a harness failure: the operation must not be rejected.
+        frames = [l for l in text.splitlines() if l.strip().startswith("File ")]
+        last = frames[-1] if frames else ""
+        src_root = os.path.abspath(SRC)
+        if src_root in last or (os.sep + "barril" + os.sep in last and "/verif/" not in last):
+            traceback.print_exc()
+            ctx.part.violation(
+                "%s:the library raised %s inside an operation the harness relies on (valid by construction)" % (prop_id, type(e).__name__),
+                {"exception": repr(e)[:300], "traceback_tail": text.splitlines()[-12:]},
+            )
+            return finish(ctx, time.time() - t0)
         traceback.print_exc()
         print("HARNESS-ERROR: internal error in check %s" % prop_id)
         return 2
